@@ -401,19 +401,20 @@ Section Sorted.
   Lemma conv_sorted : forall s, SortP s.
   Proof.
     apply schema_ind_p.
-    - intros [|] nm s0 te s1 H Hs; cbn [conv] in H; [|discriminate].
+    - intros [|] nm s0 te s1 H Hs; cbn [conv union_of] in H; [|discriminate].
       injection H as <- <-. split; [apply set_json_SI; exact Hs|exact I].
     - intros ty fmt enum cst nv sv ik items ai mni mxi uq props req ap mnp mxp allo anyo oneo no ref dflt title
-             IHitems IHprops IHap IHone.
+             IHitems IHprops IHap IHone IHany.
       intros nm s0 te s1 H Hs. cbn [conv] in H.
+      pose proof (union_IH _ oneo anyo IHone IHany) as IHu. change (OForall (Forall (fun b => SortP b /\ PropP SortP b)) (union_of oneo anyo)) in IHu.
       destruct (classify ty fmt enum cst nv sv ik items ai mni mxi uq props req ap mnp mxp allo anyo oneo no ref dflt title)
         as [[nl k]|]; cbn [conv_node] in H; [|discriminate].
       destruct nl.
-      + destruct (conv_kind cls rid cvf k (inner_name nm) items props req ap oneo s0) as [[ti sa]|] eqn:Hc; [|discriminate].
-        destruct (conv_kind_sorted _ _ _ _ _ _ _ _ _ _ IHitems IHprops IHap IHone Hc Hs) as [Hsa Hti].
+      + destruct (conv_kind cls rid cvf k (inner_name nm) items props req ap (union_of oneo anyo) s0) as [[ti sa]|] eqn:Hc; [|discriminate].
+        destruct (conv_kind_sorted _ _ _ _ _ _ _ _ _ _ IHitems IHprops IHap IHu Hc Hs) as [Hsa Hti].
         destruct (assign ti sa) as [i sb] eqn:Ha. injection H as <- <-.
         split; [exact (assign_SI _ _ _ _ Ha Hsa Hti)|exact I].
-      + exact (conv_kind_sorted _ _ _ _ _ _ _ _ _ _ IHitems IHprops IHap IHone H Hs).
+      + exact (conv_kind_sorted _ _ _ _ _ _ _ _ _ _ IHitems IHprops IHap IHu H Hs).
   Qed.
 
   Lemma put_SI s t ent names types flags :
@@ -729,17 +730,18 @@ Section Slots.
   Lemma conv_frame : forall s, FrameP s.
   Proof.
     apply schema_ind_p.
-    - intros [|] nm s0 te s1 H; cbn [conv] in H; [|discriminate]. injection H as _ <-. apply frame_set_json.
+    - intros [|] nm s0 te s1 H; cbn [conv union_of] in H; [|discriminate]. injection H as _ <-. apply frame_set_json.
     - intros ty fmt enum cst nv sv ik items ai mni mxi uq props req ap mnp mxp allo anyo oneo no ref dflt title
-             IHitems IHprops IHap IHone.
+             IHitems IHprops IHap IHone IHany.
       intros nm s0 te s1 H. cbn [conv] in H.
+      pose proof (union_IH _ oneo anyo IHone IHany) as IHu. change (OForall (Forall (fun b => FrameP b /\ PropP FrameP b)) (union_of oneo anyo)) in IHu.
       destruct (classify ty fmt enum cst nv sv ik items ai mni mxi uq props req ap mnp mxp allo anyo oneo no ref dflt title)
         as [[nl k]|]; cbn [conv_node] in H; [|discriminate].
       destruct nl.
-      + destruct (conv_kind cls rid cvf k (inner_name nm) items props req ap oneo s0) as [[ti sa]|] eqn:Hc; [|discriminate].
+      + destruct (conv_kind cls rid cvf k (inner_name nm) items props req ap (union_of oneo anyo) s0) as [[ti sa]|] eqn:Hc; [|discriminate].
         destruct (assign ti sa) as [i sb] eqn:Ha. injection H as _ <-.
-        eapply frame_trans; [exact (conv_kind_frame _ _ _ _ _ _ _ _ _ _ IHitems IHprops IHap IHone Hc)|exact (assign_frame _ _ _ _ Ha)].
-      + exact (conv_kind_frame _ _ _ _ _ _ _ _ _ _ IHitems IHprops IHap IHone H).
+        eapply frame_trans; [exact (conv_kind_frame _ _ _ _ _ _ _ _ _ _ IHitems IHprops IHap IHu Hc)|exact (assign_frame _ _ _ _ Ha)].
+      + exact (conv_kind_frame _ _ _ _ _ _ _ _ _ _ IHitems IHprops IHap IHu H).
   Qed.
 
   Definition stored (te ent : details) : Prop :=
